@@ -38,6 +38,7 @@ fn map_rust(f: &MapFn, t: &Ty) -> String {
         MapFn::ToMax => "|x: i64| dfir_rs::lattices::Max::new(x)".into(),
         MapFn::FromMax => "|x: dfir_rs::lattices::Max<i64>| x.into_reveal()".into(),
         MapFn::ToSet => "|x: i64| dfir_rs::lattices::set_union::SetUnionHashSet::<i64>::new_from([x])".into(),
+        MapFn::ToShape => "|x: i64| match x.rem_euclid(3) { 0 => gd::Sh::A(x), 1 => gd::Sh::B(x, x + 1), _ => gd::Sh::C { k: x, v: x * 2 } }".into(),
     }
 }
 
@@ -289,6 +290,18 @@ fn op_text(p: &Prog, a: &Analysis, i: usize) -> String {
                 format!("state{}, {t}>()", ps.trim_end_matches('>'))
             }
         }
+        Op::StateBy { pers } => {
+            let t = "dfir_rs::lattices::Max<i64>";
+            let args = "(|x: i64| dfir_rs::lattices::Max::new(x), ::std::default::Default::default)";
+            if pers.is_empty() {
+                format!("state_by::<{t}>{args}")
+            } else {
+                let ps = pers_rust(pers);
+                format!("state_by{}, {t}>{args}", ps.trim_end_matches('>'))
+            }
+        }
+        Op::DemuxEnum => "demux_enum::<gd::Sh>()".into(),
+        Op::Initialize => "initialize()".into(),
         Op::ForEach { sink } => format!(
             "for_each(|x: {}| lg{sink}.borrow_mut().push((context.current_tick().0, {sink}usize, gd::tv(&x))))",
             in_ty(0).rust()
@@ -491,6 +504,28 @@ impl TV for dfir_rs::lattices::set_union::SetUnionHashSet<i64> {
         let mut v: Vec<i64> = self.as_reveal_ref().iter().copied().collect();
         v.sort();
         serde_json::json!({"s": v})
+    }
+}
+
+/// enum for `demux_enum`
+#[derive(Clone, Debug, dfir_rs::DemuxEnum)]
+pub enum Sh { A(i64), B(i64, i64), C { k: i64, v: i64 } }
+impl TV for Sh {
+    fn tv(&self) -> J {
+        match self {
+            Sh::A(x) => serde_json::json!([0, x]),
+            Sh::B(x, y) => serde_json::json!([1, x, y]),
+            Sh::C { k, v } => serde_json::json!([2, k, v]),
+        }
+    }
+}
+impl NL for Sh {
+    fn nl(&self, out: &mut Vec<i64>) {
+        match self {
+            Sh::A(x) => out.extend([0, *x]),
+            Sh::B(x, y) => out.extend([1, *x, *y]),
+            Sh::C { k, v } => out.extend([2, *k, *v]),
+        }
     }
 }
 
